@@ -473,7 +473,7 @@ Expected model_call(const World &w, const ExecOp &op, CallCtx &c) {
 // ------------------------------------------------------------------ world transitions shared with the simulator
 void apply_setconfig(World &w, const Op &op) {
     if (op.cfg_mode == 1) { w.files.erase(SIM_CONFIG_PATH); return; }
-    FileNode f; f.content = op.cfg_mode == 0 ? op.cfg : ""; f.open_errno = op.cfg_mode == 2 ? op.cfg_errno : 0;
+    FileNode f; f.content = op.cfg_mode == 0 ? op.cfg : ""; f.open_errno = op.cfg_mode == 2 ? op.cfg_errno : 0; if (op.cfg_file_mode) f.mode = op.cfg_file_mode;
     w.files[SIM_CONFIG_PATH] = f;
 }
 static void merge_json(J &dst, const J &patch) {
